@@ -29,6 +29,8 @@ impl Defset {
     }
 
     pub fn add_def(&mut self, record_id: RecordId) {
+        #[cfg(tablegen_lsp_verif)]
+        super::verif_oplog::push(format!("defset.add_def\t{}", record_id.index()));
         self.def_list.push(record_id);
     }
 }
